@@ -290,5 +290,6 @@ func gen(g *hx.Gen) {
 		g.Emit(randomSeq(r))
 	}
 
+	genLarge(g)
 	genSort(g)
 }
